@@ -12,6 +12,7 @@ import (
 	"io"
 	"os"
 	"os/exec"
+	"runtime"
 	"runtime/debug"
 	"strings"
 	"sync"
@@ -44,6 +45,18 @@ var workerOps = map[string]opFunc{}
 
 func workerMain() {
 	debug.SetMaxStack(256 << 20)
+	// watchdog: a run-away loop of the code under test that allocates without bound must not take the machine down
+	go func() {
+		var ms runtime.MemStats
+		for {
+			time.Sleep(200 * time.Millisecond)
+			runtime.ReadMemStats(&ms)
+			if ms.HeapAlloc > 3<<30 {
+				fmt.Fprintln(os.Stderr, "VERIF-WATCHDOG: heap above 3 GiB, giving up (unbounded allocation)")
+				os.Exit(97)
+			}
+		}
+	}()
 	in := bufio.NewReaderSize(os.Stdin, 1<<20)
 	out := bufio.NewWriter(os.Stdout)
 	for {
@@ -193,6 +206,37 @@ func (pl *Pool) Run(reqs []*Req) []*Resp {
 	return res
 }
 
+// Confirm re-runs, each in a fresh process and in parallel, the requests whose first run crashed; a crash that does not
+// reproduce is replaced by the second answer.
+func (pl *Pool) Confirm(reqs []*Req, res []*Resp, timeout time.Duration) {
+	idx := []int{}
+	for i, r := range res {
+		if r != nil && r.Crash != "" {
+			idx = append(idx, i)
+		}
+	}
+	if len(idx) == 0 {
+		return
+	}
+	var wg sync.WaitGroup
+	sem := make(chan struct{}, pl.N)
+	for _, i := range idx {
+		wg.Add(1)
+		sem <- struct{}{}
+		go func(i int) {
+			defer wg.Done()
+			defer func() { <-sem }()
+			r2 := pl.RunOne(reqs[i], timeout)
+			if r2.Crash == "" {
+				res[i] = r2
+			} else {
+				res[i].Detail = res[i].Detail + "\n(confirmed in a fresh process: " + r2.Crash + ")"
+			}
+		}(i)
+	}
+	wg.Wait()
+}
+
 // RunOne runs a single request in a fresh process (used to confirm crashes / timeouts).
 func (pl *Pool) RunOne(req *Req, timeout time.Duration) *Resp {
 	old := pl.Timeout
@@ -237,6 +281,9 @@ func (pl *Pool) one(p *proc, req *Req) (*Resp, *proc) {
 				detail = detail[:2000] + "..."
 			}
 			p.kill()
+			if strings.Contains(detail, "VERIF-WATCHDOG") {
+				return &Resp{ID: req.ID, Crash: "timeout", Detail: "unbounded memory growth (watchdog): " + firstLines(detail, 3)}, nil
+			}
 			return &Resp{ID: req.ID, Crash: "fatal", Detail: firstLines(detail, 12)}, nil
 		}
 		var resp Resp
